@@ -77,7 +77,7 @@ InitialStrands(g) ==
 TableNewEvent(g) ==
   [ev |-> "TableNew", table |-> Len(tables), key |-> g, g |-> g,
    co |-> (g \in prog.co \/ (g \in QGoals /\ AtomOfQ(g) \in prog.co)),
-   flo |-> FALSE, strands |-> InitialStrands(g)]
+   flo |-> FALSE, big |-> FALSE, strands |-> InitialStrands(g)]
 
 HasTable(g) == \E i \in 1..Len(tables) : tables[i].key = g
 
@@ -159,7 +159,7 @@ Candidates(cur) ==       \* cur: the public call in progress [kind, goal, stopAt
                  del == IF s.ref THEN <<>>
                         ELSE SelectSeq(s.del, LAMBDA d : d # tables[TopT].key)   \* self-cycle filter
              IN {Ev("Requeue"),
-                 [ev |-> "AnswerNew", idx |-> Len(tables[TopT].answers), amb |-> s.amb,
+                 [ev |-> "AnswerNew", idx |-> Len(tables[TopT].answers), big |-> FALSE, amb |-> s.amb,
                   trivial |-> (del = <<>>), trivsub |-> TRUE, key |-> del, del |-> del],
                  [ev |-> "AnswerDup", key |-> del]}
         ELSE {})
